@@ -434,6 +434,13 @@ def run(ck):
     from . import c05
     n7 = c05.validate(ck, agg, net.NetNode(ck, "rf24_network", "RF24Network"))
     n8 = send_by_id(ck, agg)
+    # replies travel down the tree hop by hop (R04.5, shared with C04) and a node that has transmitted - successfully or not - listens
+    # again, or it answers nothing any more (R07.1 for _write(), shared with C07)
+    from . import c04, c07
+    c04.next_hop(ck, agg, net.NetNode(ck, "rf24_network", "RF24Network"))
+    c04.child_window(ck, agg, net.NetNode(ck, "rf24_network", "RF24Network"))
+    c07.write_typestate(ck, agg)
+    c07.addr_writers(ck, agg)
     agg.flush()
     ck.floor("R17.8", "send() paths reaching write()", n8, 4)
     ck.floor("R16.4", "lease table scenarios", n6, 3)
